@@ -221,60 +221,141 @@ def _run_start_marker(ctx, chk):
     except ValueError as exc:
         chk.indeterminate("C01.O3", where_of(f, cs[0]), "start marker %s not evaluable: %s" % (ast.unparse(ex)[:80], exc))
         return
-    if elems[0] != "bool":
-        chk.indeterminate("C01.O3", where_of(f, cs[0]), "start marker is not a comparison with 0")
-        return
-    _, op, vals = elems
-    v = [Poly.atom("v%d" % i) for i in range(4)]
-    want = [v[0], v[1] - v[0], v[2] - v[1]]
-    ok = op == ">" and [x.key() for x in vals[:3]] == [x.key() for x in want]
-    chk.ob("C01.O3", ok, where_of(f, cs[0]),
-           "start marker elements 0..2 = [%s] %s 0" % (", ".join(x.key() for x in vals[:3]), op),
-           "[v0, v1 - v0, v2 - v1] > 0: a run that begins at index 0 is marked",
+    # truth tables over the atoms v0..v3 and vlast (0/1): element i must be 1 exactly when
+    # v[i] is True and v[i-1] is False, with v[-1] := False
+    import itertools
+    atoms = ["v0", "v1", "v2", "v3", "vlast"]
+    bad = None
+    for vals in itertools.product((0, 1), repeat=len(atoms)):
+        env = dict(zip(atoms, vals))
+        want = [env["v0"], int(env["v1"] and not env["v0"]), int(env["v2"] and not env["v1"])]
+        try:
+            got = [int(bool(_eval_elem(e, env))) for e in elems[:3]]
+        except ValueError as exc:
+            chk.indeterminate("C01.O3", where_of(f, cs[0]), "start marker element not evaluable: %s" % exc)
+            return
+        if got != want:
+            bad = (env, got, want)
+            break
+    desc = "[%s]" % ", ".join(_show_elem(e) for e in elems[:3])
+    chk.ob("C01.O3", bad is None, where_of(f, cs[0]),
+           "start marker elements 0..2 = %s%s" % (desc, "" if bad is None else "; for %s it is %s instead of %s" % (
+               {k: v for k, v in bad[0].items()}, bad[1], bad[2])),
+           "[v0, v1 and not v0, v2 and not v1]: a run that begins at index 0 is marked, whatever the last element is",
            key="get_true_interval_masks|start-marker",
-           why="with a constant first element a leading True run is numbered 0 = 'not in a run' and the helper's own assertion fires (a record starting in heavy rain)")
+           why="with a constant (or wrapped-around) first element a leading True run is numbered 0 = 'not in a run' and the helper's own assertion fires (a record starting in heavy rain)")
+    _no_run_label(ctx, chk, f, flow, mod)
+
+
+def _show_elem(e):
+    k = e[0]
+    if k == "v":
+        return e[1]
+    if k == "c":
+        return str(e[1])
+    if k in ("sub", "add", "and", "or"):
+        return "(%s %s %s)" % (_show_elem(e[1]), {"sub": "-", "add": "+", "and": "&", "or": "|"}[k], _show_elem(e[2]))
+    if k == "not":
+        return "~%s" % _show_elem(e[1])
+    if k == "cmp":
+        return "(%s %s %s)" % (_show_elem(e[2]), e[1], e[3])
+    return str(e)
+
+
+def _eval_elem(e, env):
+    k = e[0]
+    if k == "v":
+        return env[e[1]]
+    if k == "c":
+        return e[1]
+    if k == "sub":
+        return _eval_elem(e[1], env) - _eval_elem(e[2], env)
+    if k == "add":
+        return _eval_elem(e[1], env) + _eval_elem(e[2], env)
+    if k == "and":
+        return int(bool(_eval_elem(e[1], env)) and bool(_eval_elem(e[2], env)))
+    if k == "or":
+        return int(bool(_eval_elem(e[1], env)) or bool(_eval_elem(e[2], env)))
+    if k == "not":
+        return int(not bool(_eval_elem(e[1], env)))
+    if k == "cmp":
+        a = _eval_elem(e[2], env)
+        return int({">": a > e[3], ">=": a >= e[3], "!=": a != e[3], "==": a == e[3], "<": a < e[3], "<=": a <= e[3]}[e[1]])
+    raise ValueError("element %r" % (e,))
 
 
 def _first_elems(mod, e, bv):
-    """Symbolic first elements of an array expression over v0, v1, v2, ..."""
+    """Symbolic first elements (expression trees over v0.., vlast) of an array expression."""
+    N = 5
+
     def arr(n):
-        # returns list of Poly (first 4 elements)
         if isinstance(n, ast.Name) and n.id == bv:
-            return [Poly.atom("v%d" % i) for i in range(5)]
+            return [("v", "v%d" % i) for i in range(N)]
+        if isinstance(n, ast.UnaryOp) and isinstance(n.op, (ast.Invert, ast.Not)):
+            return [("not", x) for x in arr(n.operand)]
+        if isinstance(n, ast.Compare) and len(n.ops) == 1 and isinstance(n.comparators[0], ast.Constant) \
+                and isinstance(n.comparators[0].value, (int, float)):
+            op = {ast.Gt: ">", ast.GtE: ">=", ast.NotEq: "!=", ast.Eq: "==", ast.Lt: "<", ast.LtE: "<="}.get(type(n.ops[0]))
+            if op is None:
+                raise ValueError("comparison operator")
+            return [("cmp", op, x, n.comparators[0].value) for x in arr(n.left)]
         if isinstance(n, ast.Call):
             fn = full_call_name(mod, n) or ""
             last = fn.split(".")[-1]
-            if isinstance(n.func, ast.Attribute) and n.func.attr in ("astype", "copy", "view") :
+            if isinstance(n.func, ast.Attribute) and n.func.attr in ("astype", "copy", "view"):
                 return arr(n.func.value)
             if last in ("asarray", "array", "int64", "int_") and n.args:
                 return arr(n.args[0])
-            if last == "concatenate" and n.args and isinstance(n.args[0], (ast.Tuple, ast.List)):
+            if last == "logical_not" and len(n.args) == 1:
+                return [("not", x) for x in arr(n.args[0])]
+            if last in ("logical_and", "logical_or") and len(n.args) == 2:
+                a, b = arr(n.args[0]), arr(n.args[1])
+                return [("and" if last == "logical_and" else "or", x, y) for x, y in zip(a, b)]
+            if last == "roll" and len(n.args) == 2:
+                a = arr(n.args[0])
+                k = n.args[1]
+                kv = k.value if isinstance(k, ast.Constant) else (-k.operand.value if isinstance(k, ast.UnaryOp) and isinstance(k.operand, ast.Constant) else None)
+                if kv == 1:
+                    src = n.args[0]
+                    if not (isinstance(src, ast.Name) and src.id == bv) and not (isinstance(src, ast.Call)):
+                        raise ValueError("roll of a derived array")
+                    lastelem = ("v", "vlast")
+                    if not (isinstance(src, ast.Name) and src.id == bv):
+                        # roll(astype(v)) etc.: the wrapped element is the same function of vlast
+                        inner = arr(src)
+                        lastelem = _subst_atom(inner[0], "v0", "vlast")
+                    return [lastelem] + a[:-1]
+                if kv == -1:
+                    return a[1:]
+                raise ValueError("roll by %s" % ast.unparse(k))
+            if last in ("concatenate", "hstack", "append") and n.args:
+                parts = n.args[0].elts if last != "append" and isinstance(n.args[0], (ast.Tuple, ast.List)) else list(n.args[:2])
                 out = []
-                for part in n.args[0].elts:
+                for part in parts:
                     if isinstance(part, (ast.List, ast.Tuple)):
                         for c in part.elts:
                             if isinstance(c, ast.Constant) and isinstance(c.value, (int, bool)):
-                                out.append(Poly.const(int(c.value)))
+                                out.append(("c", int(c.value)))
                             elif isinstance(c, ast.Subscript):
                                 out.append(scalar(c))
                             else:
                                 raise ValueError("literal element %s" % ast.unparse(c))
+                    elif isinstance(part, ast.Constant) and isinstance(part.value, (int, bool)):
+                        out.append(("c", int(part.value)))
                     else:
                         out += arr(part)
                         break
-                return out[:5]
+                return out[:N]
             if last == "diff" and n.args:
                 kw = {k.arg: k.value for k in n.keywords}
                 a = arr(n.args[0])
                 if "prepend" in kw:
                     pv = kw["prepend"]
                     if isinstance(pv, ast.Constant):
-                        a = [Poly.const(int(pv.value))] + a
+                        a = [("c", int(pv.value))] + a
                     else:
                         raise ValueError("prepend %s" % ast.unparse(pv))
-                return [a[i + 1] - a[i] for i in range(len(a) - 1)]
-            if last == "roll":
-                raise ValueError("roll")
+                return [("sub", a[i + 1], a[i]) for i in range(len(a) - 1)]
             raise ValueError("call %s" % fn)
         if isinstance(n, ast.Subscript) and isinstance(n.slice, ast.Slice):
             a = arr(n.value)
@@ -288,29 +369,87 @@ def _first_elems(mod, e, bv):
             if n.slice.step is not None:
                 raise ValueError("slice step")
             return a[k:]
-        if isinstance(n, ast.BinOp) and isinstance(n.op, (ast.Sub, ast.Add)):
+        if isinstance(n, ast.BinOp) and isinstance(n.op, (ast.Sub, ast.Add, ast.BitAnd, ast.BitOr)):
             a, b = arr(n.left), arr(n.right)
-            m = min(len(a), len(b))
-            return [(a[i] - b[i]) if isinstance(n.op, ast.Sub) else (a[i] + b[i]) for i in range(m)]
+            tag = {ast.Sub: "sub", ast.Add: "add", ast.BitAnd: "and", ast.BitOr: "or"}[type(n.op)]
+            return [(tag, x, y) for x, y in zip(a, b)]
         raise ValueError("expression %s" % ast.unparse(n)[:60])
 
     def scalar(n):
-        if isinstance(n, ast.Subscript) and not isinstance(n.slice, ast.Slice) and isinstance(n.slice, ast.Constant):
-            a = arr(n.value)
-            return a[n.slice.value]
+        if isinstance(n, ast.Subscript) and not isinstance(n.slice, ast.Slice) and isinstance(n.slice, ast.Constant) and n.slice.value >= 0:
+            return arr(n.value)[n.slice.value]
+        if isinstance(n, ast.Subscript) and ast.unparse(n.slice) == "-1":
+            return _subst_atom(arr(n.value)[0], "v0", "vlast")
         raise ValueError("scalar %s" % ast.unparse(n))
 
-    # peel astype / comparison
-    core = e
-    while isinstance(core, ast.Call) and isinstance(core.func, ast.Attribute) and core.func.attr == "astype":
-        core = core.func.value
-    if isinstance(core, ast.Compare) and len(core.ops) == 1 and isinstance(core.comparators[0], ast.Constant) and core.comparators[0].value == 0:
-        op = {ast.Gt: ">", ast.GtE: ">=", ast.NotEq: "!=", ast.Eq: "==", ast.Lt: "<"}.get(type(core.ops[0]), "?")
-        return ("bool", op, arr(core.left))
-    if isinstance(core, ast.Compare) and len(core.ops) == 1 and isinstance(core.comparators[0], ast.Constant) and core.comparators[0].value == 1 \
-            and isinstance(core.ops[0], ast.Eq):
-        return ("bool", ">", arr(core.left))
-    raise ValueError("not a comparison with 0")
+    out = arr(e)
+    if len(out) < 3:
+        raise ValueError("fewer than three leading elements determined")
+    return out
+
+
+def _subst_atom(e, a, b):
+    if e == ("v", a):
+        return ("v", b)
+    if isinstance(e, tuple):
+        return tuple(_subst_atom(x, a, b) if isinstance(x, tuple) else x for x in e)
+    return e
+
+
+def _no_run_label(ctx, chk, f, flow, mod):
+    """How is the 'not in a run' label (0) kept out of the returned masks?
+    By value (set difference / filter) is total; by position (drop the first of the sorted
+    labels) silently assumes that some element of the input is False."""
+    rets = [n for n in ast.walk(f.node) if isinstance(n, ast.Return) and n.value is not None and enclosing_func(n) is f.node]
+    if len(rets) != 1 or not isinstance(rets[0].value, (ast.GeneratorExp, ast.ListComp)):
+        chk.indeterminate("C01.O3", where_of(f, f.node), "returned masks are not built by a comprehension over the labels")
+        return
+    comp = rets[0].value
+    it = comp.generators[0].iter
+    lab = it.id if isinstance(it, ast.Name) else None
+    by_value = False
+    positional = []
+    # filters in the comprehension itself
+    for c in comp.generators[0].ifs:
+        t = ast.unparse(c).replace(" ", "")
+        if t.endswith("!=0") or t.endswith(">0") or t.endswith(">=1"):
+            by_value = True
+    if lab:
+        for n in ast.walk(f.node):
+            # definitions of the label list
+            if isinstance(n, ast.Assign) and isinstance(n.targets[0], ast.Name) and n.targets[0].id == lab:
+                t = ast.unparse(n.value).replace(" ", "")
+                if "-{0}" in t or "!=0" in t or ">0]" in t or ">0)" in t or "discard(0)" in t or ".difference({0})" in t:
+                    by_value = True
+                if isinstance(n.value, ast.Subscript) and isinstance(n.value.slice, ast.Slice) and ast.unparse(n.value.slice).startswith("1"):
+                    positional.append(n)
+            if isinstance(n, ast.Delete):
+                for tg in n.targets:
+                    if isinstance(tg, ast.Subscript) and isinstance(tg.value, ast.Name) and tg.value.id == lab \
+                            and isinstance(tg.slice, ast.Constant) and tg.slice.value == 0:
+                        positional.append(n)
+            if isinstance(n, ast.Call) and isinstance(n.func, ast.Attribute) and n.func.attr in ("pop",) and isinstance(n.func.value, ast.Name) \
+                    and n.func.value.id == lab and n.args and isinstance(n.args[0], ast.Constant) and n.args[0].value == 0:
+                positional.append(n)
+            if isinstance(n, ast.Call) and isinstance(n.func, ast.Attribute) and n.func.attr in ("discard", "remove") and isinstance(n.func.value, ast.Name) \
+                    and n.args and isinstance(n.args[0], ast.Constant) and n.args[0].value == 0:
+                by_value = True
+    # a positional removal is fine if it is conditional on the first label being 0
+    uncond = []
+    for pnode in positional:
+        guarded = False
+        a = getattr(pnode, "parent", None)
+        while a is not None and a is not f.node:
+            if isinstance(a, ast.If) and "[0]==0" in ast.unparse(a.test).replace(" ", ""):
+                guarded = True
+            a = getattr(a, "parent", None)
+        if not guarded:
+            uncond.append(pnode)
+    ok = by_value or (positional and not uncond)
+    chk.ob("C01.O3", ok, where_of(f, uncond[0] if uncond else rets[0]),
+           "label 0 ('not in a run') is removed %s" % ("by value" if by_value else ("by dropping the first sorted label unconditionally: `%s`" % ast.unparse(uncond[0]) if uncond else "not at all")),
+           "removed by value (or only if it is present)", key="get_true_interval_masks|no-run-label",
+           why="for an input that is True everywhere there is no label 0: the function's assertion fails (a gap-free stretch that is heavy rain at every step)")
 
 
 # ---------------------------------------------------------------- O4
